@@ -4,7 +4,7 @@
     Slicer: [GenMM.slice_database = slice_database sguards_fixed]. *)
 From Coq Require Import String Ascii List Bool Arith Lia.
 From Pi2 Require Import MM17.Ast MM17.Print MM17.Parse MM17.Wf MM17.Slice MM17.SliceSpec MM17.GenLib
-     MM17.ParsePrintProofs MM17.SliceProofs Gen.MMPrintSlice.
+     MM17.ParsePrintProofs MM17.SliceProofs MM17.Verify MM17.VerifySpec MM17.SliceVerifyProofs Gen.MMPrintSlice.
 Import ListNotations.
 Open Scope string_scope.
 
@@ -91,11 +91,6 @@ Proof. destruct l; cbn; eauto. Qed.
 
 Definition labels_ok (db : database) : Prop := forall l, In l (flat_map stmt_labels db) -> l <> "".
 
-Lemma kw_stmt_ok kw (k : tok) cs : classify (kw ++ "") = k ->
-  unit_ok ([W kw] ++ flat_map (fun v_c => [W " "] ++ [T v_c]) cs ++ [W " $."])%list (k :: map TS cs ++ [KDot])%list ->
-  True.
-Proof. trivial. Qed.
-
 Lemma structured_ok kind label terms proof :
   label <> "" ->
   unit_ok (GenMM.postvisit_structured_statement false kind label terms proof)
@@ -137,5 +132,417 @@ Proof.
   destruct kind; cbn [GenMM.get_statement_type is_floating is_essential is_axiomatic is_provable];
     match goal with |- context [atoms [W ?s]] => change (atoms [W s]) with [ALit s] end;
     cbn [app group flush]; rewrite ET3; cbn [group flush lits_only app];
-    change (group [] T3) with (group [] (ASp :: T3)); rewrite <- ET3, Hmid; rewrite <- ?app_assoc; reflexivity.
+    change (group [] T3) with (group [] (ASp :: T3)); rewrite <- ET3, Hmid; cbn [app]; repeat rewrite <- app_assoc; cbn [app]; repeat rewrite <- app_assoc; cbn [app]; reflexivity.
+Qed.
+
+Lemma kw_vals_ok kw k cs : classify (kw ++ "") = k -> lit_atoms "" kw = [ALit kw] ->
+  unit_ok ([W kw] ++ flat_map (fun v_c => [W " "] ++ [T v_c]) cs ++ [W " $."])%list (k :: map TS cs ++ [KDot])%list.
+Proof.
+  intros Hk Hkw rest. rewrite !atoms_app, vals_atoms.
+  change (atoms [W kw]) with (lit_atoms "" kw ++ [])%list. rewrite Hkw.
+  change (atoms [W " $."]) with [ASp; ALit "$."]. rewrite <- !app_assoc. cbn [app group].
+  change ([ASp; ALit "$."] ++ ASp :: rest)%list with (ASp :: (ALit "$." :: ASp :: rest)).
+  rewrite group_vals. cbn [flush lits_only group app]. rewrite Hk.
+  change (classify ("$." ++ "")) with KDot. rewrite <- app_assoc. reflexivity.
+Qed.
+
+Lemma flat_mapi_atoms (X : stmt -> list piece) (c : nat -> bool) : forall l i,
+  atoms (flat_mapi_from (fun v_i v_stmt => (X v_stmt ++ (if c v_i then [W nl] else [W " "]))%list) i l)
+  = flat_map (fun st => atoms (X st) ++ [ASp])%list l.
+Proof.
+  induction l as [|a l IH]; intros i; [reflexivity|]. cbn [flat_mapi_from flat_map].
+  rewrite !atoms_app, IH. destruct (c i); reflexivity.
+Qed.
+
+Lemma group_stmts (enc : stmt -> list piece) (tk : stmt -> list tok) : forall l tail,
+  Forall (fun a => unit_ok (enc a) (tk a)) l ->
+  group [] (flat_map (fun st => atoms (enc st) ++ [ASp])%list l ++ tail) = (flat_map tk l ++ group [] tail)%list.
+Proof.
+  induction l as [|a l IH]; intros tail F; [reflexivity|]. inversion F as [|? ? Ha Fl]; subst.
+  cbn [flat_map]. rewrite <- !app_assoc. cbn [app]. rewrite (Ha _), (IH tail Fl). reflexivity.
+Qed.
+
+Lemma encode_stmt_ok s : (forall x, In x (stmt_labels s) -> x <> "") ->
+  unit_ok (GenMM.encode_stmt false s) (print_stmt s).
+Proof.
+  induction s as [cs|vs|vs|l ty v|l ts|l ts|l ts pf|ss IH] using stmt_ind2; intros HL.
+  - apply (kw_vals_ok "$c" KC cs); reflexivity.
+  - apply (kw_vals_ok "$v" KV vs); reflexivity.
+  - apply (kw_vals_ok "$d" KD vs); reflexivity.
+  - intros rest. cbn [GenMM.encode_stmt]. rewrite (structured_ok KindF l _ None (HL l (or_introl eq_refl)) rest). reflexivity.
+  - intros rest. cbn [GenMM.encode_stmt]. rewrite (structured_ok KindE l _ None (HL l (or_introl eq_refl)) rest).
+    cbn [print_stmt app]. now rewrite <- app_assoc.
+  - intros rest. cbn [GenMM.encode_stmt]. rewrite (structured_ok KindA l _ None (HL l (or_introl eq_refl)) rest).
+    cbn [print_stmt app]. now rewrite <- app_assoc.
+  - intros rest. cbn [GenMM.encode_stmt]. rewrite (structured_ok KindP l _ pf (HL l (or_introl eq_refl)) rest).
+    cbn [print_stmt app]. rewrite <- !app_assoc. cbn [app]. rewrite <- !app_assoc. reflexivity.
+  - intros rest. cbn [GenMM.encode_stmt]. rewrite !atoms_app. unfold flat_mapi. rewrite flat_mapi_atoms.
+    change (atoms [W "${ "]) with [ALit "${"; ASp]. change (atoms [W "$}"]) with [ALit "$}"].
+    rewrite <- !app_assoc. cbn [app group flush lits_only]. change (classify ("${" ++ "")) with KOpen.
+    rewrite (group_stmts (GenMM.encode_stmt false) print_stmt ss).
+    + cbn [group flush lits_only app print_stmt]. change (classify ("$}" ++ "")) with KClose.
+      rewrite <- app_assoc. reflexivity.
+    + rewrite Forall_forall in *. intros s Hs. apply (IH s Hs). intros x Hx. apply HL. cbn [stmt_labels]. apply in_flat_map. eauto.
+Qed.
+
+Theorem gen_encode_database_agrees db : labels_ok db -> norm (GenMM.encode_database false db) = print_db db.
+Proof.
+  intros HL. unfold norm, GenMM.encode_database, print_db, print_stmts. fold (atoms (flat_map (fun v_stmt => (GenMM.encode_stmt false v_stmt ++ [W nl])%list) db)).
+  assert (E : atoms (flat_map (fun v_stmt => (GenMM.encode_stmt false v_stmt ++ [W nl])%list) db)
+              = flat_map (fun st => atoms (GenMM.encode_stmt false st) ++ [ASp])%list db).
+  { clear. induction db as [|a db IH]; [reflexivity|]. cbn [flat_map]. rewrite !atoms_app, IH. reflexivity. }
+  rewrite E. rewrite <- (app_nil_r (flat_map _ db)). rewrite (group_stmts (GenMM.encode_stmt false) print_stmt db []).
+  - cbn [group flush]. now rewrite app_nil_r.
+  - apply Forall_forall. intros s Hs. apply encode_stmt_ok. intros x Hx. apply HL. apply in_flat_map. eauto.
+Qed.
+
+(* ================================================================== slicer *)
+From Coq Require Import OrderedTypeEx.
+
+(** [sorted(set)] is canonical: it only depends on the set *)
+Fixpoint ssorted (l : list string) : Prop :=
+  match l with
+  | [] => True
+  | a :: r => (match r with [] => True | b :: _ => String.compare a b = Lt end) /\ ssorted r
+  end.
+
+Lemma cmp_trans a b c : String.compare a b = Lt -> String.compare b c = Lt -> String.compare a c = Lt.
+Proof.
+  intros H1 H2. apply String_as_OT.cmp_lt. apply String_as_OT.cmp_lt in H1, H2. exact (String_as_OT.lt_trans _ _ _ H1 H2).
+Qed.
+
+Lemma cmp_gt_lt a b : String.compare a b = Gt -> String.compare b a = Lt.
+Proof.
+  intros H. pose proof (String_as_OT.cmp_antisym b a) as A. unfold String_as_OT.cmp in A. rewrite A, H. reflexivity.
+Qed.
+
+Lemma cmp_refl a : String.compare a a = Eq.
+Proof. apply String_as_OT.cmp_eq. reflexivity. Qed.
+
+Lemma ssorted_head_lt a l : ssorted (a :: l) -> forall x, In x l -> String.compare a x = Lt.
+Proof.
+  revert a. induction l as [|b l IH]; intros a [H1 H2] x Hx; [destruct Hx|].
+  destruct Hx as [<-|Hx]; [exact H1|]. apply (cmp_trans a b x H1). now apply IH.
+Qed.
+
+Lemma insert_uniq_sorted x l : ssorted l -> ssorted (insert_uniq x l).
+Proof.
+  induction l as [|y l IH]; intros S; [cbn; auto|]. cbn [insert_uniq].
+  destruct (String.compare x y) eqn:E.
+  - exact S.
+  - cbn [ssorted]. split; [exact E|exact S].
+  - destruct S as [S1 S2]. specialize (IH S2). cbn [ssorted]. split; [|exact IH].
+    destruct l as [|z l]; cbn [insert_uniq].
+    + now apply cmp_gt_lt.
+    + destruct (String.compare x z) eqn:E2; [exact S1|now apply cmp_gt_lt|exact S1].
+Qed.
+
+Lemma sort_uniq_sorted l : ssorted (sort_uniq l).
+Proof. induction l as [|x l IH]; [exact I|]. cbn [sort_uniq fold_right]. now apply insert_uniq_sorted. Qed.
+
+Lemma ssorted_ext : forall l1 l2, ssorted l1 -> ssorted l2 -> (forall x, In x l1 <-> In x l2) -> l1 = l2.
+Proof.
+  induction l1 as [|a l1 IH]; intros l2 S1 S2 H.
+  - destruct l2 as [|b l2]; [reflexivity|]. exfalso. apply (H b). now left.
+  - destruct l2 as [|b l2]; [exfalso; apply (H a); now left|].
+    assert (Hab : a = b).
+    { destruct (proj1 (H a) (or_introl eq_refl)) as [E|Ha]; [now symmetry|].
+      destruct (proj2 (H b) (or_introl eq_refl)) as [E|Hb]; [assumption|].
+      pose proof (ssorted_head_lt b l2 S2 a Ha) as L1. pose proof (ssorted_head_lt a l1 S1 b Hb) as L2.
+      pose proof (cmp_trans _ _ _ L1 L2) as L3. rewrite cmp_refl in L3. discriminate. }
+    subst b. f_equal. apply IH; [apply S1|apply S2|].
+    intros x. split; intros Hx.
+    + destruct (proj1 (H x) (or_intror Hx)) as [E|Hx']; [|exact Hx'].
+      subst x. pose proof (ssorted_head_lt a l1 S1 a Hx) as L. rewrite cmp_refl in L. discriminate.
+    + destruct (proj2 (H x) (or_intror Hx)) as [E|Hx']; [|exact Hx'].
+      subst x. pose proof (ssorted_head_lt a l2 S2 a Hx) as L. rewrite cmp_refl in L. discriminate.
+Qed.
+
+Lemma sort_uniq_ext l1 l2 : (forall x, In x l1 <-> In x l2) -> sort_uniq l1 = sort_uniq l2.
+Proof.
+  intros H. apply ssorted_ext; try apply sort_uniq_sorted. intros x. rewrite !sort_uniq_In. apply H.
+Qed.
+
+Lemma gen_construct_axiom ants c :
+  GenMM.construct_axiom ants c = construct_axiom ants (st_label c) (st_terms c).
+Proof. unfold GenMM.construct_axiom, construct_axiom. destruct ants; reflexivity. Qed.
+
+Lemma is_SD_SE_b s : is_SD_SE s = (is_SD_b s || is_SE_b s).
+Proof. destruct s; reflexivity. Qed.
+
+(** [deconstruct_provable], under the condition of its only call site ([match_axiom] returned None) *)
+Lemma rev_case {A} (l : list A) : l = [] \/ exists x l', l = (l' ++ [x])%list.
+Proof. destruct (rev l) as [|x r] eqn:E.
+  - left. rewrite <- (rev_involutive l), E. reflexivity.
+  - right. exists x, (rev r). rewrite <- (rev_involutive l), E. reflexivity.
+Qed.
+
+Lemma forallb_ext' {A} (f g : A -> bool) l : (forall x, f x = g x) -> forallb f l = forallb g l.
+Proof. intros H. induction l as [|a l IH]; [reflexivity|]. cbn. now rewrite H, IH. Qed.
+
+Lemma gen_deconstruct_provable st : match_axiom st = MNone ->
+  GenMM.deconstruct_provable st =
+  match deconstruct_provable st with Some (ants, l, ts, pf) => Some (ants, SP l ts pf) | None => None end.
+Proof.
+  intros HM. unfold GenMM.deconstruct_provable. destruct st; try reflexivity.
+  cbn [is_SP_b is_SB_b sb_stmts]. rewrite HM. cbn [maxiom_is_none oassert deconstruct_provable].
+  destruct (rev_case ss) as [->|[x [ss' ->]]]; [reflexivity|].
+  rewrite rev_app_distr, removelast_last. unfold py_last. rewrite last_last. cbn [rev app].
+  rewrite (forallb_rev is_SD_SE ss'), rev_involutive.
+  replace (forallb (fun v_substatement => is_SD_b v_substatement || is_SE_b v_substatement) ss') with (forallb is_SD_SE ss')
+    by (apply forallb_ext'; intros s; apply is_SD_SE_b).
+  destruct x; cbn [is_SP_b oassert]; try (destruct (forallb is_SD_SE ss'); reflexivity).
+Qed.
+
+Lemma pfn_map {A B} (f : A -> option B) l :
+  py_filter_none (map f l) = flat_map (fun x => match f x with Some y => [y] | None => [] end) l.
+Proof. induction l as [|a l IH]; [reflexivity|]. cbn [map py_filter_none flat_map]. destruct (f a); cbn; now rewrite IH. Qed.
+
+Lemma gen_sugar cut x :
+  match (if negb (py_endswith x "is-pattern") then None
+         else if negb (dict_has (String.append (py_drop_last x (String.length "is-pattern")) "is-sugar") cut) then None
+              else Some (String.append (py_drop_last x (String.length "is-pattern")) "is-sugar"))
+  with Some y => [y] | None => [] end = sugar_of cut x.
+Proof.
+  unfold sugar_of, sugar_label, py_endswith, py_drop_last, dict_has.
+  change (String.length "is-pattern") with 10.
+  destruct (Nat.leb 10 (String.length x) && String.eqb (String.substring (String.length x - 10) 10 x) "is-pattern"); [|reflexivity].
+  cbn [negb]. destruct (dict_get _ cut); reflexivity.
+Qed.
+
+Lemma ofold_app {A B} (f : list B -> A -> option (list B)) (g : A -> list B) :
+  (forall s a, f s a = Some (s ++ g a)%list) -> forall l s, ofold_left f l s = Some (s ++ flat_map g l)%list.
+Proof.
+  intros H. induction l as [|a l IH]; intros s; cbn [ofold_left flat_map]; [now rewrite app_nil_r|].
+  rewrite H, IH. now rewrite app_assoc.
+Qed.
+
+Definition CF (l : list stmt) : list string :=
+  flat_map (fun x => match stmt_consts x with Some c => (builtins ++ c ++ [])%list | None => [] end) l.
+
+Lemma ofold_consts : forall l c0 m0,
+  ofold_left (fun '(c, m) x => obind (statements_get_constants [x]) (fun t => Some ((c ++ t)%list, (m ++ get_metavariables x)%list)))
+             l (c0, m0)
+  = match stmts_consts l with Some _ => Some ((c0 ++ CF l)%list, (m0 ++ flat_map stmt_mvs l)%list) | None => None end.
+Proof.
+  induction l as [|x l IH]; intros c0 m0.
+  - cbn. now rewrite !app_nil_r.
+  - cbn [ofold_left stmts_consts]. unfold statements_get_constants at 1. cbn [stmts_consts].
+    destruct (stmt_consts x) as [c|] eqn:Ex; [|reflexivity]. cbn [obind]. rewrite IH.
+    destruct (stmts_consts l) as [cs|]; [|reflexivity]. unfold CF, get_metavariables. cbn [flat_map]. rewrite Ex.
+    now rewrite <- !app_assoc.
+Qed.
+
+Lemma CF_In l cs : stmts_consts l = Some cs -> forall y, In y (CF l) <-> (l <> [] /\ In y builtins) \/ In y cs.
+Proof.
+  revert cs. induction l as [|x l IH]; intros cs H y.
+  - cbn in H. injection H as <-. cbn. intuition congruence.
+  - cbn [stmts_consts] in H. destruct (stmt_consts x) as [c|] eqn:Ex; [|discriminate].
+    destruct (stmts_consts l) as [cl|] eqn:El; [|discriminate]. injection H as <-.
+    unfold CF in *. cbn [flat_map]. rewrite Ex. rewrite !in_app_iff, (IH cl eq_refl y). cbn [In].
+    split.
+    + intros [[Hb|[Hc|[]]]|[[_ Hb]|Hc]]; [left; split; [discriminate|exact Hb]|right; now left|left; split; [discriminate|exact Hb]|right; now right].
+    + intros [[_ Hb]|[Hc|Hc]]; [left; now left|left; right; now left|right; now right].
+Qed.
+
+Lemma keep_step n2 Mu M kept name st : (forall x, mem x Mu = mem x M) ->
+  obind (if is_SD_b st then
+           obind (if Nat.leb 2 (List.length (filter (fun var => mem (mv_name var) Mu) (sd_vars st)))
+                  then Some (kept ++ [SD (filter (fun var => mem (mv_name var) Mu) (sd_vars st))])%list else Some kept)
+                 (fun k => Some k)
+         else if okey_in name n2 || is_SE_b st || (is_SF_b st && mem (sf_var st) Mu) then Some (kept ++ [st])%list else Some kept)
+        (fun k => Some k)
+  = Some (kept ++ keep_entry sguards_fixed n2 M (name, st))%list.
+Proof.
+  intros HM. unfold keep_entry. cbn [fst snd].
+  assert (HF : forall vs, filter (fun var => mem (mv_name var) Mu) vs = filter (fun v => mem v M) vs).
+  { intros vs. apply filter_ext. intros a. apply HM. }
+  destruct st; cbn [is_SD_b is_SE_b is_SF_b sd_vars sf_var andb orb];
+    try (rewrite ?orb_false_r, ?orb_true_r; unfold okey_in, key_in; destruct name; try destruct (mem _ n2); cbn; rewrite ?app_nil_r; reflexivity).
+  - rewrite HF. destruct (Nat.leb 2 _); cbn; rewrite ?app_nil_r; reflexivity.
+  - rewrite orb_false_r, HM. unfold okey_in, key_in. destruct name; [destruct (mem s n2)|]; cbn; destruct (mem v M); cbn; rewrite ?app_nil_r; reflexivity.
+Qed.
+
+Lemma sort_uniq_nil l : sort_uniq l = [] -> l = [].
+Proof. destruct l; [reflexivity|]. intros H. exfalso. revert H. apply sort_uniq_nonnil. discriminate. Qed.
+
+Lemma gen_supporting cut sd l ts pf ess :
+  GenMM.supporting_database_for_provable cut sd (SP l ts pf) ess = supporting sguards_fixed cut [] sd l ts pf ess.
+Proof.
+  unfold GenMM.supporting_database_for_provable, supporting. cbv zeta.
+  unfold deconstruct_compressed_proof.
+  destruct (proof_labels pf) as [labels|]; [|reflexivity]. cbn [obind].
+  match goal with |- context [py_filter_none (map ?f labels)] =>
+    replace (py_filter_none (map f labels)) with (flat_map (sugar_of cut) labels)
+      by (symmetry; rewrite pfn_map; apply flat_map_ext; intros a; apply gen_sugar) end.
+  set (n1 := (labels ++ flat_map (sugar_of cut) labels)%list).
+  rewrite (ofold_app _ (fun a => assoc_default a sd)) by reflexivity. cbn [obind]. unfold assoc_default.
+  set (n2 := (n1 ++ flat_map (fun a => match assoc_get a sd with Some v => v | None => [] end) n1)%list).
+  destruct (map_opt (fun x => dict_get x cut) n2) as [nst|]; [|reflexivity]. cbn [obind].
+  rewrite ofold_consts.
+  change ([SP l ts pf] ++ ess ++ filter (fun v_stmt => is_SE_b v_stmt) (dict_values cut) ++ nst)%list
+    with (SP l ts pf :: ess ++ filter is_SE (map snd cut) ++ nst)%list.
+  set (all := (SP l ts pf :: ess ++ filter is_SE (map snd cut) ++ nst)%list).
+  destruct (stmts_consts all) as [cs|] eqn:ECS; [|reflexivity]. cbn [obind app].
+  set (Mu := flat_map stmt_mvs all). set (M := sort_uniq Mu).
+  assert (HM : forall x, mem x Mu = mem x M).
+  { intros x. unfold M. destruct (mem x Mu) eqn:E1, (mem x (sort_uniq Mu)) eqn:E2; try reflexivity.
+    - apply mem_In in E1. apply (proj2 (sort_uniq_In x Mu)) in E1. apply mem_In in E1. congruence.
+    - apply mem_In in E2. apply (proj1 (sort_uniq_In x Mu)) in E2. apply mem_In in E2. congruence. }
+  rewrite (ofold_app _ (keep_entry sguards_fixed n2 M)) by (intros s [name st]; apply keep_step; exact HM).
+  cbn [obind app g_float_consts sguards_fixed]. unfold dict_items.
+  set (kept := flat_map (keep_entry sguards_fixed n2 M) cut).
+  unfold statements_get_constants. destruct (stmts_consts kept) as [cs2|]; [|reflexivity]. cbn [obind].
+  assert (ESC : py_sorted (CF all ++ builtins ++ cs2) = sort_uniq (builtins ++ cs ++ cs2)).
+  { unfold py_sorted. apply sort_uniq_ext. intros x. rewrite !in_app_iff, (CF_In all cs ECS x).
+    split.
+    - intros [[[_ H]|H]|[H|H]]; auto.
+    - intros [H|[H|H]]; auto. }
+  rewrite ESC. cbn [filter map app].
+  destruct Mu as [|m0 Mu'] eqn:EMu.
+  - cbn [nonnil is_nil negb obind app]. reflexivity.
+  - assert (HMne : M <> []) by (intros H0; apply sort_uniq_nil in H0; discriminate).
+    cbn [nonnil is_nil negb obind app]. unfold py_sorted, mk_mv. rewrite map_id. fold M.
+    destruct M as [|m1 M'] eqn:EM; [congruence|]. cbn [app]. rewrite <- ?app_assoc. reflexivity.
+Qed.
+
+Lemma let_pair_id {A B} (x : A * B) : (let (r, c) := x in (r, c)) = x.
+Proof. now destruct x. Qed.
+
+Lemma gen_loop_ext {S A Y} (f g : S -> A -> option (S * list Y)) : (forall s a, f s a = g s a) ->
+  forall l s, gen_loop f l s = gen_loop g l s.
+Proof. intros H. induction l as [|a l IH]; intros s; [reflexivity|]. cbn [gen_loop]. rewrite H. destruct (g s a) as [[s' ys]|]; [now rewrite IH|reflexivity]. Qed.
+
+(** one iteration of the loop of [slice_database], as the model sees it *)
+Definition step_spec (sd : list (string * list string)) (incl_ excl_ : list string) (cn : dict * nat) (st : stmt)
+  : option ((dict * nat) * list (string * database)) :=
+  let (cut, n) := cn in
+  match st with
+  | SC _ | SV _ => Some ((cut, n), [])
+  | SD _ => Some ((dict_add_anon st cut, n + 1), [])
+  | SF l _ _ | SE l _ => Some ((dict_set l st cut, n), [])
+  | _ => match match_axiom st with
+         | MCrash => None
+         | MAx k => Some ((dict_set k st cut, n), [])
+         | MNone =>
+             match deconstruct_provable st with
+             | None => None
+             | Some (ants, l, ts, pf) =>
+                 if mem l incl_ && negb (mem l excl_) then
+                   match supporting sguards_fixed cut [] sd l ts pf ants with
+                   | None => None
+                   | Some s => Some ((dict_set l (construct_axiom ants l ts) cut, n), [(l, s)])
+                   end
+                 else Some ((dict_set l (construct_axiom ants l ts) cut, n), [])
+             end
+         end
+  end.
+
+Lemma step_spec_loop sd incl_ excl_ : forall stmts cut n,
+  gen_loop (step_spec sd incl_ excl_) stmts (cut, n) = slice_loop sguards_fixed sd incl_ excl_ stmts cut [].
+Proof.
+  induction stmts as [|st rest IH]; intros cut n; [reflexivity|].
+  cbn [gen_loop slice_loop]. unfold step_spec at 1.
+  destruct st as [cs|vs|vs|l ty v|l ts|l ts|l ts pf|ss]; cbn [g_d_in_place g_top_essential sguards_fixed];
+    try (rewrite IH; cbn [app]; apply let_pair_id).
+  - destruct (match_axiom (SA l ts)) as [| |k]; [reflexivity| |rewrite IH; apply let_pair_id].
+    destruct (deconstruct_provable (SA l ts)) as [[[[ants l0] ts0] pf0]|]; [|reflexivity]. cbv zeta.
+    destruct (mem l0 incl_ && negb (mem l0 excl_)); [|rewrite IH; apply let_pair_id].
+    destruct (supporting _ _ _ _ _ _ _ _); [rewrite IH; reflexivity|reflexivity].
+  - destruct (match_axiom (SP l ts pf)) as [| |k]; [reflexivity| |rewrite IH; apply let_pair_id].
+    destruct (deconstruct_provable (SP l ts pf)) as [[[[ants l0] ts0] pf0]|]; [|reflexivity]. cbv zeta.
+    destruct (mem l0 incl_ && negb (mem l0 excl_)); [|rewrite IH; apply let_pair_id].
+    destruct (supporting _ _ _ _ _ _ _ _); [rewrite IH; reflexivity|reflexivity].
+  - destruct (match_axiom (SB ss)) as [| |k]; [reflexivity| |rewrite IH; apply let_pair_id].
+    destruct (deconstruct_provable (SB ss)) as [[[[ants l0] ts0] pf0]|]; [|reflexivity]. cbv zeta.
+    destruct (mem l0 incl_ && negb (mem l0 excl_)); [|rewrite IH; apply let_pair_id].
+    destruct (supporting _ _ _ _ _ _ _ _); [rewrite IH; reflexivity|reflexivity].
+Qed.
+
+Theorem gen_slice_database_agrees db sd incl_ excl_ :
+  GenMM.slice_database db sd incl_ excl_ = slice_database sguards_fixed db sd incl_ excl_.
+Proof.
+  unfold GenMM.slice_database, slice_database. rewrite <- (step_spec_loop sd incl_ excl_ db [] 0).
+  apply gen_loop_ext. intros [cut n] st. unfold step_spec. cbv zeta.
+  assert (Hprov : match_axiom st = MNone -> (is_SP_b st || is_SB_b st) = true ->
+            obind (GenMM.deconstruct_provable st) (fun t__6 =>
+              let '(v_antecedents, v_consequent) := t__6 in
+              obind (if mem (st_label v_consequent) incl_ && negb (mem (st_label v_consequent) excl_) then
+                       obind (GenMM.supporting_database_for_provable cut sd v_consequent v_antecedents) (fun t__7 =>
+                         Some ([] ++ [(st_label v_consequent, t__7)])%list)
+                     else Some []) (fun yielded__ =>
+              Some (dict_set (st_label v_consequent) (GenMM.construct_axiom v_antecedents v_consequent) cut, n, yielded__)))
+            = match deconstruct_provable st with
+              | None => None
+              | Some (ants, l, ts, pf) =>
+                  if mem l incl_ && negb (mem l excl_) then
+                    match supporting sguards_fixed cut [] sd l ts pf ants with
+                    | None => None
+                    | Some s => Some (dict_set l (construct_axiom ants l ts) cut, n, [(l, s)])
+                    end
+                  else Some (dict_set l (construct_axiom ants l ts) cut, n, [])
+              end).
+  { intros EM _. rewrite (gen_deconstruct_provable st EM).
+    destruct (deconstruct_provable st) as [[[[ants l] ts] pf]|]; [|reflexivity]. cbn [obind st_label st_terms].
+    rewrite gen_construct_axiom. cbn [st_label st_terms].
+    destruct (mem l incl_ && negb (mem l excl_)); [|reflexivity].
+    rewrite gen_supporting. destruct (supporting sguards_fixed cut [] sd l ts pf ants); reflexivity. }
+  destruct st as [cs|vs|vs|l ty v|l ts|l ts|l ts pf|ss]; try reflexivity.
+  - cbn [is_SC_b is_SV_b is_SD_b is_SF_b is_SE_b is_SP_b is_SB_b orb].
+    destruct (match_axiom (SP l ts pf)) as [| |k] eqn:EM; [reflexivity| |reflexivity].
+    rewrite (Hprov eq_refl eq_refl). destruct (deconstruct_provable (SP l ts pf)) as [[[[ants l0] ts0] pf0]|]; [|reflexivity].
+    destruct (mem l0 incl_ && negb (mem l0 excl_)); [|reflexivity]. destruct (supporting _ _ _ _ _ _ _ _); reflexivity.
+  - cbn [is_SC_b is_SV_b is_SD_b is_SF_b is_SE_b is_SP_b is_SB_b orb].
+    destruct (match_axiom (SB ss)) as [| |k] eqn:EM; [reflexivity| |reflexivity].
+    rewrite (Hprov eq_refl eq_refl). destruct (deconstruct_provable (SB ss)) as [[[[ants l0] ts0] pf0]|]; [|reflexivity].
+    destruct (mem l0 incl_ && negb (mem l0 excl_)); [|reflexivity]. destruct (supporting _ _ _ _ _ _ _ _); reflexivity.
+Qed.
+
+(* ================================================================== labels of a slice come from the database *)
+Lemma entry_labels st kv : In kv (entry st) -> incl (stmt_labels (snd kv)) (stmt_labels st).
+Proof.
+  destruct st as [cs|vs|vs|l ty v|l ts|l ts|l ts pf|ss]; cbn [entry].
+  - intros [].
+  - intros [].
+  - intros [<-|[]]. apply incl_refl.
+  - intros [<-|[]]. apply incl_refl.
+  - intros [<-|[]]. apply incl_refl.
+  - cbn. intros [<-|[]]. apply incl_refl.
+  - cbn. intros [<-|[]]. apply incl_refl.
+  - destruct (match_axiom (SB ss)) as [| |k] eqn:EM; [intros []| |intros [<-|[]]; apply incl_refl].
+    destruct (deconstruct_provable (SB ss)) as [[[[ants l0] ts0] pf0]|] eqn:ED; [|intros []].
+    intros [<-|[]]. destruct (deconstruct_provable_ok _ _ _ _ _ ED) as [_ [[E _]|E]]; [discriminate|].
+    injection E as ->. cbn [snd]. unfold construct_axiom. destruct ants as [|a ants].
+    + cbn. apply incl_refl.
+    + cbn [stmt_labels]. rewrite !flat_map_app. cbn. apply incl_refl.
+Qed.
+
+Lemma keep_entry_labels g n2 M kv st : In st (keep_entry g n2 M kv) -> incl (stmt_labels st) (stmt_labels (snd kv)).
+Proof.
+  unfold keep_entry. destruct kv as [k s0]. cbn [fst snd].
+  assert (G : forall b : bool, In st (if b then [s0] else []) -> incl (stmt_labels st) (stmt_labels s0)).
+  { intros [|]; [intros [<-|[]]; apply incl_refl|intros []]. }
+  destruct s0; try apply G.
+  destruct (Nat.leb 2 _); [|intros []]. intros [<-|[]]. intros x [].
+Qed.
+
+Lemma slice_labels_ok db sd incl_ excl_ l s :
+  unique_labels db -> labels_ok db -> In (l, s) (fst (slice_database sguards_fixed db sd incl_ excl_)) -> labels_ok s.
+Proof.
+  intros U LO Hin. unfold slice_database in Hin.
+  destruct (slice_loop_struct sd incl_ excl_ db [] l s) as (pre & st & post & ants & ts & pf & Edb & Ppre & MA & DP & SU);
+    [exact U|exact Hin|]. cbn [app] in SU.
+  destruct (supporting_inv _ _ _ _ _ _ _ SU) as (labels & n2 & M & C & _ & _ & _ & _ & _ & _ & _ & _ & _ & Es).
+  assert (Hdb : forall x st0, In st0 db -> In x (stmt_labels st0) -> x <> "").
+  { intros x st0 H1 H2. apply LO. apply in_flat_map. eauto. }
+  intros x Hx. rewrite Es in Hx. cbn [flat_map stmt_labels app] in Hx. rewrite !flat_map_app in Hx.
+  apply in_app_or in Hx. destruct Hx as [Hx|Hx].
+  { unfold hdr in Hx. destruct M; destruct Hx. }
+  apply in_app_or in Hx. destruct Hx as [Hx|Hx].
+  - apply in_flat_map in Hx. destruct Hx as [st' [Hst' Hx]]. apply in_flat_map in Hst'. destruct Hst' as [kv [Hkv Hst']].
+    apply (keep_entry_labels _ _ _ _ _ Hst') in Hx. apply in_flat_map in Hkv. destruct Hkv as [st0 [Hst0 Hkv]].
+    apply (entry_labels _ _ Hkv) in Hx. apply (Hdb x st0); [|exact Hx]. rewrite Edb. apply in_or_app. now left.
+  - cbn [flat_map stmt_labels] in Hx. rewrite app_nil_r in Hx.
+    apply (Hdb x st); [rewrite Edb; apply in_or_app; right; now left|].
+    destruct (deconstruct_provable_ok _ _ _ _ _ DP) as [_ [[-> ->]| ->]]; [exact Hx|exact Hx].
 Qed.
